@@ -214,7 +214,7 @@ def r3_read(ctx):
                        + ("" if forced is not None else " (cache consulted again: fine)"))
         else:
             # cached path: must be guarded by `<same expr> is not None`
-            gs = cfg.guards(n)
+            gs = cfg.if_guards(n)
             guarded = False
             for h, pol in gs:
                 t = cfg.stmt[h].test
@@ -250,7 +250,7 @@ def r3_read(ctx):
     raises = [n for n in hcfg.nodes(lambda s: isinstance(s, ast.Raise))]
     none_guard_ok = False
     for rn in raises:
-        for gh, pol in hcfg.guards(rn):
+        for gh, pol in hcfg.if_guards(rn):
             t = U(hcfg.stmt[gh].test)
             if pol is True and t == f"{cvar} is None" and hcfg.dominates(cn, gh):
                 cls = raised_class_name(hcfg.stmt[rn])
@@ -271,7 +271,7 @@ def r3_read(ctx):
             ctx.check(good, "C01.R3", h, st, "returns the computed value after the None -> LeaspyInputError guard",
                       "the path on which the definition returned None (unset independent variable) does not end in `raise LeaspyInputError` before this return")
         else:
-            gs = hcfg.guards(rn)
+            gs = hcfg.if_guards(rn)
             guarded = any(pol is True and "is not None" in U(hcfg.stmt[g_].test) and U(st.value) in U(hcfg.stmt[g_].test) for g_, pol in gs)
             ctx.check(guarded, "C01.R3", h, st, "cached value returned only when not None",
                       "returns a cached value without the `is not None` test")
